@@ -417,6 +417,9 @@ def predicate(c, r):
     if "error" in r:
         return ["raises " + r["error"]]
     fn = c["fn"]
+    if r.get("history_same") is False:
+        bad.append("the helper answered differently when called a second time with the same arguments in the same process "
+                   "(after a call with other scalar arguments on the same structure): not a function of its input")
     if fn == "frame":
         if not finite([r["rt_cart"], r["rt_scaled"]]):
             return ["non-finite output"]
